@@ -14,11 +14,15 @@ SPEC = dict(
              'leaves are the map in key order (c10_canonical); that two canonical trees with the same leaves are the same cell (c10_unique); and '
              'that parse_hashmap / HashMap.parse / from_cell / parse_hashmap_aug decode EVERY spec-valid Hashmap / HashmapAug tree, whatever '
              'label constructors it uses and with any edges replaced by pruned branches, returning exactly the leaves (and extras, in '
-             'left/right/own order) of the non-pruned part (c10_parse_any*).',
+             'left/right/own order) of the non-pruned part (c10_parse_any*). Conversely (repaired defect: hashmap.tlb {n <= m} was not '
+             'enforced) deserialize_hml returns the bit pattern of a label constructor iff the label is not longer than the remaining key - the '
+             'accepted patterns are exactly the spec encodings (c10_label_accepted_iff) - so a cell whose label announces more bits than remain '
+             'makes every parser entry point raise, at the root, below forks, and a parse that returns has met only fitting labels at every '
+             'depth (c10_label_too_long_rejected, c10_label_too_long_below_fork, c10_parse_labels_fit); a negative key length is refused.',
         level_note='Trusted: Lean kernel (propext, Classical.choice, Quot.sound); Spec/Hashmap.lean as the transcription of hashmap.tlb and of '
                    'append_dict_label; Model/Hashmap.lean as a hand transcription of utils.py/parse.py (tied by sampled differential correspondence: '
                    'every (len,max,same) with max<=40 (<=64 thorough), tie-break boundaries for max up to 1023, random valid non-canonical trees '
-                   'with Merkle prunings through 8 parser entry points); the 200-line Python->Lean translator for the label functions; '
+                   'with Merkle prunings through 8 parser entry points; over-long labels of every constructor at depth 0-4 must raise); the 200-line Python->Lean translator for the label functions; '
                    'that the hash equals the on-chain one rests on c10_canonical + c10_unique + Spec/Hashmap.lean being the reference format, on C01 (cell hash), and is cross-checked on samples against an independent Python transcription of dict.cpp.',
         technique='Lean 4 proof (label functions translated from source, hand model for tree/parse) + differential correspondence + independent reference serialiser',
     ),
@@ -28,6 +32,8 @@ SPEC = dict(
          'reference serialiser, all triples with max<=40/64 and boundary lens for every max<=1023 (sampled in quick); (b) spec-valid trees built by an '
          'independent encoder with a random admissible constructor on every edge, optional augmentation and random Merkle-pruned subtrees, fed to '
          'parse_hashmap, HashMap.parse, from_cell, load_dict, load_hashmap, parse_hashmap_aug, load_hashmap_aug, load_hashmap_aug_e; '
+         '(c) cells whose edge label (hml_short / hml_long / hml_same) announces more bits than the key has left, as the root edge or below 1-4 '
+         'well-formed forks, key lengths 1..256, plain and augmented: all 7 entry points must raise and the model must answer err; '
          'distinct = distinct (tree, constructors, prunings); non-trivial = at least one leaf',
     trusted_base=['Spec/Hashmap.lean transcribes hashmap.tlb + dict.cpp label choice', 'Model/Hashmap.lean mirrors utils.py/parse.py by hand',
                   'harness/translate/labelfns.py', 'harness/gen/maps.py: independent reference serialiser and tree encoder'],
